@@ -21,6 +21,13 @@ def handle : List String → Option String
     let rev ← parseBool rev
     pure ((cmp "KmerMatch.kmer_indices" Gen.kmer_indices.untranslatable
       (resStr (fun (ab : Int × Int) => s!"{ab.1},{ab.2}") (Gen.kmer_indices { k := (k : Int), pre := pre } pos rev)) real).getD "ok")
+  -- linkage_to_bio_tree generated from the current source against the real tree (nested structure with scaled branch lengths)
+  | ["pyg.linkage", link, labels, real] => do
+    let rows ← (if link == "_" then some [] else (link.splitOn ";").mapM fun r => match r.splitOn "," with
+      | [a, b, h] => do pure ((← a.toInt?), (← b.toInt?), (← h.toInt?), (0 : Int))
+      | _ => none)
+    let labels ← parseNats labels
+    pure ((cmp "linkage_to_bio_tree" Gen.linkage_to_bio_tree.untranslatable (resStr cladeStr (Gen.linkage_to_bio_tree rows labels)) real).getD "ok")
   | ["pyg.chunks", n, size, real] => do
     pure ((chunks (← n.toInt?) (← size.toInt?) real).getD "ok")
   | ["pyg.chk", n, i, real] => do
